@@ -125,7 +125,7 @@ def r1(ctx: RuleCtx) -> None:
             ctx.require(h.sem[True] and not h.sem[False], f'AstPrinter.{h.name}: writes ( operand ) exactly when its flag is true', pmod, f'AstPrinter.{h.name}',
                         pmod.func(f'AstPrinter.{h.name}'), f'helper {h.name} writes parentheses when flag is {[f for f, v in h.sem.items() if v]}')
     printed = PR.paren_mode(ctx, pmod, 'AstPrinter', paren_kind[0], inner_attr)
-    ctx.note(f'ParenthesizedNode is {"written as ( inner )" if printed else "transparent (inner expression printed bare)"}; '
+    ctx.note(f'ParenthesizedNode is {"written as ( inner ) depending on the level of the inner expression" if isinstance(printed, PR.ParenRows) else "written as ( inner )" if printed else "transparent (inner expression printed bare)"}; '
              f'precedence_level(ParenthesizedNode) = {prec[paren_kind]}')
     synth = PR.synthesized(ctx, lad, REWRITER)
     ctx.note('operator nodes built outside the parser (any expression may stand in the operand): '
@@ -165,7 +165,8 @@ def r1(ctx: RuleCtx) -> None:
                 if lv >= need or any_child:
                     situations.append(('direct', lv, prec[child]))
                 vis = prec[child] if isinstance(prec[paren_kind], str) else prec[paren_kind]
-                situations.append(('paren', top if printed else lv, vis))
+                wr = printed.written(prec[child]) if isinstance(printed, PR.ParenRows) else printed
+                situations.append(('paren', top if wr else lv, vis))
                 for how, eff, seen in situations:
                     combos += 1
                     needs = eff < need
@@ -425,7 +426,7 @@ def _attr_definitions(fn: ast.AST) -> T.Dict[str, str]:
     return {k: v[0] for k, v in out.items() if len(v) == 1}
 
 
-def _lexer_strip(mmod: Module, tids: T.Tuple[str, ...]) -> T.Dict[str, T.Tuple[int, int]]:
+def _lexer_strip(mmod: Module, tids: T.Tuple[str, ...], repo: T.Any = None) -> T.Dict[str, T.Tuple[int, int]]:
     """How many characters Lexer.lex cuts off the front / the end of the text of each of `tids`: the `v = v[a:-b]` of the arm that
     handles these token ids, with arm-local names read through and `x if tid == c else y` folded per token id."""
     lex = mmod.func('Lexer.lex')
@@ -455,6 +456,20 @@ def _lexer_strip(mmod: Module, tids: T.Tuple[str, ...]) -> T.Dict[str, T.Tuple[i
                                 e = e.body if ((tid in vals) == pol) else e.orelse
                             if isinstance(e, ast.UnaryOp) and isinstance(e.op, ast.USub) and isinstance(e.operand, ast.Constant):
                                 return -e.operand.value
+                            # a constant table indexed by the token id (`OPENER_LEN[tid]`), or any other constant expression
+                            if isinstance(e, ast.Subscript) and norm(e.slice) == 'tid' and repo is not None:
+                                try:
+                                    tabv = fold_expr(repo, mmod, e.value)
+                                except Undecided:
+                                    return None
+                                r_ = tabv.get(tid) if isinstance(tabv, dict) else None
+                                return r_ if isinstance(r_, int) and not isinstance(r_, bool) else None
+                            if not isinstance(e, ast.Constant) and repo is not None and not any(isinstance(x, ast.Name) and x.id == 'tid' for x in ast.walk(e)):
+                                try:
+                                    r_ = fold_expr(repo, mmod, e)
+                                except Undecided:
+                                    return None
+                                return r_ if isinstance(r_, int) and not isinstance(r_, bool) else None
                             return e.value if isinstance(e, ast.Constant) and isinstance(e.value, int) else None
                         lo, up = fold(v.slice.lower), fold(v.slice.upper)
                         if lo is None or up is None or up > 0:
@@ -487,7 +502,7 @@ def r2(ctx: RuleCtx) -> None:
     sesc = mmod.func('StringNode.escape')
     if norm(_resolved_return(mmod, sesc)) != 'ESCAPE_SEQUENCE_SINGLE_RE.sub(decode_match, self.raw_value)':
         raise Undecided('StringNode.escape is not ESCAPE_SEQUENCE_SINGLE_RE.sub(decode_match, self.raw_value)')
-    strip = _lexer_strip(mmod, ('string', 'fstring'))      # token id -> (characters cut off the front, off the end), read by role
+    strip = _lexer_strip(mmod, ('string', 'fstring'), ctx.repo)      # token id -> (characters cut off the front, off the end), read by role
 
     # StringNode derives its two flags from the token id: is_multiline = 'multiline' in tid, is_fstring = 'fstring' in tid
     sinit_fn = mmod.func('StringNode.__init__')
